@@ -29,7 +29,7 @@ from numpy import pi
 
 from diffpy.structure import Structure
 from diffpy.structure.parsers import StructureParser
-from diffpy.structure.structureerrors import StructureFormatError
+from diffpy.structure.structureerrors import LatticeError, StructureFormatError
 
 
 class P_pdb(StructureParser):
@@ -246,7 +246,7 @@ class P_pdb(StructureParser):
                 else:
                     emsg = "%d: invalid record name '%r'" % (p_nl, record)
                     raise StructureFormatError(emsg)
-        except (ValueError, IndexError):
+        except (ValueError, IndexError, ZeroDivisionError, LatticeError):
             emsg = "%d: invalid PDB record" % p_nl
             exc_type, exc_value, exc_traceback = sys.exc_info()
             e = StructureFormatError(emsg)
